@@ -400,9 +400,32 @@ func (c *Ctx) checkTraces(s *State, env *Env, fc *FuncContract, trace []Event, l
 		}
 		if tr.Kind == "each" {
 			n := 0
+			var onT string
+			if tr.On != nil {
+				ov := env.eval(tr.On)
+				if sc, ok := ov.v.(Sc); ok {
+					onT = sc.T.S
+				} else if iv, ok := ov.v.(If); ok {
+					onT = iv.Val.S
+				}
+				c.reportEvalErrors(env, fc, tr.Src)
+			}
 			for _, ev := range trace {
 				if !matchEvent(tr.A, ev.Name) {
 					continue
+				}
+				if tr.On != nil {
+					// only the events on (textually) this receiver / channel
+					got := ""
+					switch r := ev.Recv.(type) {
+					case Sc:
+						got = r.T.S
+					case If:
+						got = r.Val.S
+					}
+					if got == "" || got != onT {
+						continue
+					}
 				}
 				n++
 				ce := env.child()
